@@ -108,6 +108,10 @@ func (c *rollCtr) elemAccess(in ssa.Instruction) bool {
 }
 
 func runC17(p *Prog, r *Report) {
+	// R6: increments made through RTMetrics are not lost: its counters are only touched under its locks (shared with C09.R1)
+	if rt := p.Named("memmetrics", "RTMetrics"); rt != nil {
+		r.Floor("C17.R6", c09Races(p, r, "C17.R6", []*types.Named{rt}), 8, "written shared locations of memmetrics.RTMetrics")
+	}
 	c := resolveRollCtr(p, r)
 	if c == nil {
 		return
@@ -206,6 +210,45 @@ func runC17(p *Prog, r *Report) {
 				"the stored resolution is "+truncate(BuildExpr(p, st.Val, nil).String(), 100)+", not the (validated) parameter: for resolutions the constructor accepts but this expression changes, the window is shorter/longer than N x resolution")
 		}
 		r.Floor("C17.R1", nRes, 1, "constructor stores of the resolution")
+	}
+	// who writes the buckets, and what: a bucket is either zeroed or increased by an amount handed in as a
+	// parameter of the writing routine (which stamps the slot with the current time). Anything else — copying
+	// another counter's buckets slot by slot, for instance — puts counts into slots without the time bookkeeping
+	// that the window bounds rest on.
+	{
+		nW := 0
+		for _, fn := range p.PkgFuncs("memmetrics") {
+			for _, b := range fn.Blocks {
+				for _, in := range b.Instrs {
+					st, ok := in.(*ssa.Store)
+					if !ok || !c.isElemAddr(st.Addr) {
+						continue
+					}
+					nW++
+					okW := false
+					if k, isC := constInt(st.Val); isC && k == 0 {
+						okW = true
+					}
+					if bo, isB := st.Val.(*ssa.BinOp); isB && bo.Op == token.ADD {
+						x, y := bo.X, bo.Y
+						if _, isP := stripConv(y).(*ssa.Parameter); !isP {
+							x, y = y, x
+						}
+						_, isP := stripConv(y).(*ssa.Parameter)
+						if ld, isL := x.(*ssa.UnOp); isL && isP && ld.Op == token.MUL {
+							a1, ok1 := ld.X.(*ssa.IndexAddr)
+							a2, ok2 := st.Addr.(*ssa.IndexAddr)
+							if ld.X == st.Addr || (ok1 && ok2 && a1.Index == a2.Index && (a1.X == a2.X || sameValue(a1.X, a2.X) || (c.isElemAddr(a1) && c.isElemAddr(a2)))) {
+								okW = true
+							}
+						}
+					}
+					r.Check(okW, "C17.R2", "memmetrics.RollingCounter: bucket write in "+FName(fn)+" zeroes the bucket or adds a parameter to it", p.InstrPos(st), "values[k] = 0 or values[k] += <parameter>",
+						"a bucket is written with "+truncate(BuildExpr(p, st.Val, nil).String(), 100)+": counts enter a slot without going through the increment routine (which maps the current time to the slot and records the update time), so they are aged by the wrong clock and can vanish before, or survive beyond, the window")
+				}
+			}
+		}
+		r.Floor("C17.R2", nW, 3, "bucket writes (clean-up, reset, increment)")
 	}
 	var zero *ssa.Store
 	for _, b := range c.cleanup.Blocks {
